@@ -63,11 +63,14 @@ CreateSteps ==
           p \in ShapePairs, v \in {349, 350}, sh \in Shapes \ {"full"}}
 
 KickSteps ==
-  {[op |-> "kick", acc |-> a, tacc |-> t, ban |-> b, third |-> "none", pacc |-> {}] :
+  {[op |-> "kick", acc |-> a, tacc |-> t, ban |-> b, third |-> "none", pacc |-> {}, shared |-> FALSE] :
      a \in {Priv, {22}, {22, 23}, Priv \ {22}}, t \in {{}, {23}, Priv, Priv \ {23}, Defined \ {23}}, b \in {0, 1, 2}}
   \cup  \* a protected bystander, logged in from the target's address or from another one
-  {[op |-> "kick", acc |-> a, tacc |-> t, ban |-> b, third |-> th, pacc |-> pa] :
+  {[op |-> "kick", acc |-> a, tacc |-> t, ban |-> b, third |-> th, pacc |-> pa, shared |-> FALSE] :
      a \in {Priv, {22}}, t \in {{}, Priv \ {23}, {23}}, b \in {0, 1, 2}, th \in {"same", "other"}, pa \in {{23}, Priv}}
+  \cup  \* the target is another connection of the requester's own account
+  {[op |-> "kick", acc |-> a, tacc |-> a, ban |-> b, third |-> th, pacc |-> {23}, shared |-> TRUE] :
+     a \in {{22, 23}, Priv, {22}, Priv \ {23}, {23}, Defined}, b \in {0, 1, 2}, th \in {"none", "same"}}
 
 (* ---- C16 cases ------------------------------------------------------------ *)
 RtSets ==
